@@ -17,7 +17,7 @@ package stdlib
 //@ assume-contract github.com/pkg/errors.New
 //@   pure
 //@   nopanic
-//@   ensures result != nil [ASSUMED]
+//@   ensures result != nil && errtext(result) == message [ASSUMED]
 
 //@ assume-contract errors.New
 //@   pure
@@ -139,3 +139,72 @@ package stdlib
 //@   pure
 //@   nopanic
 //@   ensures result0 == parsedur(s) && ((result1 == nil) == parseok(s)) [ASSUMED]
+
+//@ assume-contract github.com/pkg/errors.Wrapf
+//@   pure
+//@   nopanic
+//@   ensures err == nil ==> result == nil [ASSUMED]
+//@   ensures err != nil ==> result != nil && errunwrap(result) == err [ASSUMED]
+
+//@ assume-contract github.com/pkg/errors.Errorf
+//@   pure
+//@   nopanic
+//@   ensures result != nil [ASSUMED]
+
+//@ assume-contract fmt.Errorf
+//@   pure
+//@   nopanic
+//@   ensures result != nil [ASSUMED]
+
+//@ assume-contract strconv.Atoi
+//@   pure
+//@   nopanic
+//@   ensures ((result1 == nil) == atoiok(s)) && (result1 == nil ==> result0 == atoival(s)) [ASSUMED]
+
+//@ assume-contract strconv.Itoa
+//@   pure
+//@   nopanic
+//@   ensures result == itoa(i) && atoiok(result) && atoival(result) == i [ASSUMED]
+
+//@ assume-contract iface:context.Context.Err
+//@   pure
+//@   nopanic
+//@   ensures cancelled(recv) ==> result != nil [ASSUMED]
+
+// ---- protobuf (ASSUMED: Marshal is a function of the message; Unmarshal fills the target from exactly the given bytes) ----
+
+//@ spec protoenc(m any) string
+
+//@ assume-contract google.golang.org/protobuf/proto.Marshal
+//@   pure
+//@   nopanic
+//@   ensures result1 == nil ==> bytes(result0) == protoenc(m) [ASSUMED]
+
+//@ assume-contract google.golang.org/protobuf/proto.Unmarshal
+//@   nopanic
+//@   ensures result == nil ==> protodecoded(m) == bytes(b) [ASSUMED]
+//@   modifies ghost(protodecoded)
+
+//@ spec fqname(v any) string
+//@ spec newuuid(k int) string
+
+//@ assume-contract github.com/ThreeDotsLabs/watermill.NewUUID
+//@   ghost label UUID
+//@   pure
+//@   nopanic
+//@   ensures result == newuuid(ncalls(UUID)) [ASSUMED]
+
+//@ assume-contract errors.Join
+//@   pure
+//@   nopanic
+//@   ensures (exists i int :: 0 <= i && i < len(errs) && errs[i] != nil) ==> result != nil [ASSUMED]
+
+//@ spec gogoenc(m any) string
+
+//@ assume-contract github.com/gogo/protobuf/proto.Marshal
+//@   pure
+//@   ensures result1 == nil ==> bytes(result0) == gogoenc(pb) [ASSUMED-may-panic]
+
+//@ assume-contract github.com/gogo/protobuf/proto.Unmarshal
+//@   ensures result == nil ==> protodecoded(pb) == bytes(buf) [ASSUMED-may-panic]
+//@   modifies ghost(protodecoded)
